@@ -56,6 +56,7 @@ int main(int argc, char** argv)
   }
   if (cmd == "decode-fuzz") {   // fmcheck decode-fuzz <clause,clause,...> <artifact> [<cut.so>]
     if (argc < 4) return 2;
+    g_fuzz_mode = true;    // decode exactly as the fuzz target does
     Ctx ctx; if (argc > 4) { Cut c; std::string err; if (cut_load(c, argv[4], err)) { ctx.cuts.push_back(c); g_dc.phi = c.phi; g_dc.pidiv2 = c.pidiv2; g_dc.pidiv4 = c.pidiv4; } }
     FILE* f = fopen(argv[3], "rb"); if (!f) return 2; std::vector<uint8_t> buf(1 << 16); size_t n = fread(buf.data(), 1, buf.size(), f); fclose(f);
     const Clause* cl; Args a; if (!fuzz_select(ctx, fuzz_clauses(argv[2]), buf.data(), n, cl, a)) { printf("{}\n"); return 0; }
